@@ -391,6 +391,7 @@ def run_c15(cfg: HCfg, c: Ctx) -> Any:
                 # fresh executor, or re-run after a failed run: refuse, or run the complete selection from scratch
                 if out[0] == "raise":
                     c.check(ex_state == "failed" and isinstance(out[1], TawaziUsageError), "executor run raised %r" % (out[1],), prop="C15", data=d2)
+                    c.cover("w_refused_after_failure")
                 else:
                     c.check(veq(out[1], want), "executor returned a result that is not the complete selection computed from scratch for its own arguments",
                             prop="C15", data={**d2, "got": out[1], "want": want, "executor_state": ex_state})
